@@ -259,16 +259,16 @@ func groupFixed(c *core.Case) {
 				}
 				wit := map[string]interface{}{"vector": i, "type": typ, "input": v.in, "path": pathNames[pth], "error": fmt.Sprint(derr)}
 				if derr == nil && serr != nil {
-					c.Violation("noncanonical-accepted:typed:"+strictClass(serr), fmt.Sprintf("input %s accepted for %s although it is not canonical RLP (%v)", v.in, typ, serr), wit)
+					e.viol("noncanonical-accepted:typed:"+strictClass(serr), fmt.Sprintf("input %s accepted for %s although it is not canonical RLP (%v)", v.in, typ, serr), wit)
 				}
 				switch {
 				case derr == nil && !v.ok:
-					c.Violation("vector-accepted:"+typ+":"+v.in, fmt.Sprintf("input %s must be rejected for %s (decoded %+v)", v.in, typ, reflect.ValueOf(tgt).Elem().Interface()), wit)
+					e.viol("vector-accepted:"+typ+":"+v.in, fmt.Sprintf("input %s must be rejected for %s (decoded %+v)", v.in, typ, reflect.ValueOf(tgt).Elem().Interface()), wit)
 				case derr != nil && v.ok:
-					c.Violation("vector-rejected:"+typ+":"+v.in, fmt.Sprintf("input %s is the encoding of a %s and must be accepted: %v", v.in, typ, derr), wit)
+					e.viol("vector-rejected:"+typ+":"+v.in, fmt.Sprintf("input %s is the encoding of a %s and must be accepted: %v", v.in, typ, derr), wit)
 				case derr == nil && v.want != nil:
 					if !eqWant(v.want, tgt) {
-						c.Violation("vector-value:"+typ+":"+v.in, fmt.Sprintf("input %s decodes to %+v, expected %+v", v.in, reflect.ValueOf(tgt).Elem().Interface(), reflect.ValueOf(v.want).Elem().Interface()), wit)
+						e.viol("vector-value:"+typ+":"+v.in, fmt.Sprintf("input %s decodes to %+v, expected %+v", v.in, reflect.ValueOf(tgt).Elem().Interface(), reflect.ValueOf(v.want).Elem().Interface()), wit)
 					}
 				}
 			}
@@ -309,7 +309,7 @@ func groupFixed(c *core.Case) {
 			var err error
 			c.Guard("EncodeToBytes(vector)", func() interface{} { return t.enc }, func() { enc, err = rlp.EncodeToBytes(t.v) })
 			if err != nil || hex.EncodeToString(enc) != t.enc {
-				c.Violation("encode-vector:"+fmt.Sprintf("%T", t.v)+":"+t.enc, fmt.Sprintf("%+v encodes as %x (err %v), documented rules give %s", t.v, enc, err, t.enc), map[string]interface{}{"type": fmt.Sprintf("%T", t.v), "expected": t.enc, "got": hex.EncodeToString(enc)})
+				e.viol("encode-vector:"+fmt.Sprintf("%T", t.v)+":"+t.enc, fmt.Sprintf("%+v encodes as %x (err %v), documented rules give %s", t.v, enc, err, t.enc), map[string]interface{}{"type": fmt.Sprintf("%T", t.v), "expected": t.enc, "got": hex.EncodeToString(enc)})
 			}
 			run.Count("fixed_encode_vectors", 1)
 		}
@@ -342,7 +342,7 @@ func groupFixed(c *core.Case) {
 				derr = rlp.DecodeBytes([]byte{0xc2, 0x01, 0x02}, reflect.New(st).Interface())
 			})
 			if eerr == nil || derr == nil {
-				c.Violation("invalid-type-accepted:"+name, fmt.Sprintf("type %v must be refused (encode err %v, decode err %v)", st, eerr, derr), st.String())
+				e.viol("invalid-type-accepted:"+name, fmt.Sprintf("type %v must be refused (encode err %v, decode err %v)", st, eerr, derr), st.String())
 			}
 			run.Count("invalid_types_refused", 1)
 		}
@@ -351,7 +351,7 @@ func groupFixed(c *core.Case) {
 			var err error
 			c.Guard("unsupported type", func() interface{} { return fmt.Sprintf("%T", v) }, func() { _, err = rlp.EncodeToBytes(v) })
 			if err == nil {
-				c.Violation("invalid-type-accepted:"+fmt.Sprintf("%T", v), "unsupported type encoded without error", fmt.Sprintf("%T", v))
+				e.viol("invalid-type-accepted:"+fmt.Sprintf("%T", v), "unsupported type encoded without error", fmt.Sprintf("%T", v))
 			}
 		}
 		var u64 uint64
@@ -360,7 +360,7 @@ func groupFixed(c *core.Case) {
 			var err error
 			c.Guard("Decode into "+name, nil, func() { err = rlp.DecodeBytes([]byte{0x01}, tgt) })
 			if err == nil {
-				c.Violation("bad-target-accepted:"+name, "Decode into "+name+" returns no error", name)
+				e.viol("bad-target-accepted:"+name, "Decode into "+name+" returns no error", name)
 			}
 		}
 		run.Nontrivial("fixed|invalid-types")
@@ -375,10 +375,10 @@ func groupFixed(c *core.Case) {
 				var isz int
 				c.Guard("AppendUint64/IntSize", func() interface{} { return y }, func() { got = rlp.AppendUint64([]byte{0xaa}, y); isz = rlp.IntSize(y) })
 				if len(got) < 1 || got[0] != 0xaa || !bytes.Equal(got[1:], want) {
-					c.Violation("AppendUint64-differs", fmt.Sprintf("AppendUint64(%d) = %x, canonical integer encoding is %x", y, got, want), y)
+					e.viol("AppendUint64-differs", fmt.Sprintf("AppendUint64(%d) = %x, canonical integer encoding is %x", y, got, want), y)
 				}
 				if isz != len(want) {
-					c.Violation("IntSize-differs", fmt.Sprintf("IntSize(%d) = %d, encoding has %d bytes", y, isz, len(want)), y)
+					e.viol("IntSize-differs", fmt.Sprintf("IntSize(%d) = %d, encoding has %d bytes", y, isz, len(want)), y)
 				}
 				run.Count("helper_checks", 1)
 			}
@@ -387,7 +387,7 @@ func groupFixed(c *core.Case) {
 			var got uint64
 			c.Guard("ListSize", func() interface{} { return n }, func() { got = rlp.ListSize(n) })
 			if want := uint64(len(header(0xc0, int(n)))) + n; got != want {
-				c.Violation("ListSize-differs", fmt.Sprintf("ListSize(%d) = %d, expected %d", n, got, want), n)
+				e.viol("ListSize-differs", fmt.Sprintf("ListSize(%d) = %d, expected %d", n, got, want), n)
 			}
 		}
 		run.Nontrivial("fixed|helpers")
@@ -402,7 +402,7 @@ func groupFixed(c *core.Case) {
 			run.Eval(1)
 			c.Guard("EncodeToBytes(uint256)", func() interface{} { return s }, func() { got, err = rlp.EncodeToBytes(u) })
 			if err != nil || !bytes.Equal(got, want) {
-				c.Violation("encoding-differs-from-model:uint256", fmt.Sprintf("uint256 %s encodes as %x (err %v), integer encoding is %x", s, got, err, want), s)
+				e.viol("encoding-differs-from-model:uint256", fmt.Sprintf("uint256 %s encodes as %x (err %v), integer encoding is %x", s, got, err, want), s)
 			}
 			type holder struct {
 				A uint
@@ -411,7 +411,7 @@ func groupFixed(c *core.Case) {
 			hw := encList(append([]byte{0x05}, want...))
 			c.Guard("EncodeToBytes(struct with uint256)", func() interface{} { return s }, func() { got, err = rlp.EncodeToBytes(&holder{5, u}) })
 			if err != nil || !bytes.Equal(got, hw) {
-				c.Violation("encoding-differs-from-model:uint256", fmt.Sprintf("struct with uint256 %s encodes as %x (err %v), expected %x", s, got, err, hw), s)
+				e.viol("encoding-differs-from-model:uint256", fmt.Sprintf("struct with uint256 %s encodes as %x (err %v), expected %x", s, got, err, hw), s)
 			}
 			run.Count("uint256_encode_only", 1)
 		}
@@ -467,7 +467,7 @@ func groupFixed(c *core.Case) {
 		})
 		run.Eval(1)
 		if len(log) > 0 {
-			c.Violation("stream-api-sequence", fmt.Sprint(log), hex.EncodeToString(x))
+			e.viol("stream-api-sequence", fmt.Sprint(log), hex.EncodeToString(x))
 		}
 		run.Count("stream_api_sequences", 1)
 		run.Nontrivial("fixed|stream-api")
@@ -487,6 +487,18 @@ func eqWant(want, got interface{}) bool {
 		}
 		wp.R, gp.R = nil, nil
 		return reflect.DeepEqual(wp, gp)
+	}
+	if wt, ok := w.(optTail); ok {
+		gt := g.(optTail)
+		if len(wt.T) != len(gt.T) { // nil and empty are the same list
+			return false
+		}
+		for i := range wt.T {
+			if wt.T[i] != gt.T[i] {
+				return false
+			}
+		}
+		return wt.A == gt.A && wt.B == gt.B && wt.C == gt.C
 	}
 	return reflect.DeepEqual(w, g)
 }
